@@ -8,6 +8,8 @@
 import SeataModel.AT.Locks
 import SeataModel.Props.C01
 import SeataModel.Lemmas.Locks
+import SeataModel.AT.KeyText
+import SeataModel.Lemmas.KeyText
 namespace Seata.Props.C03
 open Seata Seata.DB Seata.AT Seata.AT.Locks Seata.Props.C01 Seata.Lemmas.Store Seata.Lemmas.Locks
 
@@ -147,5 +149,110 @@ def upd (k : Int) : LocalTx := [(.update [(1, .val (.lit (.int 7)))] (.cmp .eq (
 example : (run sc1 ⟨true, false⟩ { t := [[.int 1, .int 0], [.int 2, .int 0]] }
     [.local_ 1 (upd 1), .local_ 2 (upd 1), .local_ 2 (upd 2), .finish 1, .local_ 2 (upd 1)]).2 =
     [true, false, true, true, true] := by decide
+
+/-! ### the TEXT of the lock keys (AT/KeyText.lean): the same row always has the same key text, different
+    rows have different texts — provided no key part contains a separator (open finding
+    C03-lock-key-separators-not-escaped) -/
+section KeyTextSection
+open Seata.AT.KeyText
+open Seata.Lemmas.KeyText
+
+
+/-- a map that fixes every element of the list fixes the list -/
+private theorem map_eq_self {α : Type} (f : α → α) (l : List α) (h : ∀ a ∈ l, f a = a) : l.map f = l := by
+  induction l with
+  | nil => rfl
+  | cons a l ih =>
+    rw [List.map_cons, h a List.mem_cons_self, ih (fun b hb => h b (List.mem_cons_of_mem _ hb))]
+
+/-- splitting what was joined gives the parts back, when no part contains the separator -/
+theorem splitOn_joinWith (sep : Char) (parts : List (List Char)) (hne : parts ≠ [])
+    (h : ∀ p ∈ parts, sep ∉ p) : splitOn sep (joinWith sep parts) = parts := by
+  induction parts with
+  | nil => exact absurd rfl hne
+  | cons p rest ih =>
+    cases rest with
+    | nil =>
+      rw [joinWith_singleton]
+      exact splitOn_of_not_mem sep p (h p List.mem_cons_self)
+    | cons q rest' =>
+      rw [joinWith_cons_cons, splitOn_append_sep sep p _ (h p List.mem_cons_self),
+        ih (List.cons_ne_nil _ _) (fun r hr => h r (List.mem_cons_of_mem _ hr))]
+
+/-- a joined text contains a character only if some part does or it is the separator -/
+theorem mem_joinWith (sep c : Char) (parts : List (List Char)) (hc : c ∈ joinWith sep parts) :
+    c = sep ∨ ∃ p ∈ parts, c ∈ p := by
+  induction parts with
+  | nil => rw [joinWith_nil] at hc; exact absurd hc List.not_mem_nil
+  | cons p rest ih =>
+    cases rest with
+    | nil =>
+      rw [joinWith_singleton] at hc
+      exact Or.inr ⟨p, List.mem_cons_self, hc⟩
+    | cons q rest' =>
+      rw [joinWith_cons_cons] at hc
+      cases List.mem_append.mp hc with
+      | inl hp => exact Or.inr ⟨p, List.mem_cons_self, hp⟩
+      | inr hr =>
+        cases List.mem_cons.mp hr with
+        | inl e => exact Or.inl e
+        | inr hr' =>
+          cases ih hr' with
+          | inl e => exact Or.inl e
+          | inr e =>
+            cases e with
+            | intro r hr'' => exact Or.inr ⟨r, List.mem_cons_of_mem _ hr''.1, hr''.2⟩
+
+/-- the text of a key whose parts are clean contains no ',' -/
+private theorem comma_not_mem_keyText (k : List (List Char)) (hc : ∀ p ∈ k, Clean p) : ',' ∉ keyText k := by
+  intro hm
+  cases mem_joinWith '_' ',' k hm with
+  | inl e => exact absurd e (by decide)
+  | inr e =>
+    cases e with
+    | intro p hp => exact (hc p hp.1).2.1 hp.2
+
+/-- **round trip**: the coordinator reads back exactly the keys (as lists of parts) that the client wrote,
+    for every number of keys and parts, provided every key has at least one part and every part is clean -/
+theorem C03_keys_text_round_trip (keys : List (List (List Char))) (hne : keys ≠ [])
+    (hk : ∀ k ∈ keys, k ≠ []) (hc : ∀ k ∈ keys, ∀ p ∈ k, Clean p) :
+    parseKeys (keysText keys) = keys := by
+  have hne' : keys.map keyText ≠ [] := by
+    intro e
+    exact hne (List.map_eq_nil_iff.mp e)
+  have hsep : ∀ t ∈ keys.map keyText, ',' ∉ t := by
+    intro t ht
+    cases List.mem_map.mp ht with
+    | intro k hk' =>
+      rw [← hk'.2]
+      exact comma_not_mem_keyText k (hc k hk'.1)
+  unfold parseKeys keysText
+  rw [splitOn_joinWith ',' (keys.map keyText) hne' hsep, List.map_map]
+  apply map_eq_self
+  intro k hkm
+  show splitOn '_' (joinWith '_' k) = k
+  exact splitOn_joinWith '_' k (hk k hkm) (fun p hp => (hc k hkm p hp).1)
+
+/-- **injective**: two registrations with the same text lock the same keys -/
+theorem C03_keys_text_injective (ks ks' : List (List (List Char))) (hne : ks ≠ []) (hne' : ks' ≠ [])
+    (hk : ∀ k ∈ ks, k ≠ []) (hk' : ∀ k ∈ ks', k ≠ [])
+    (hc : ∀ k ∈ ks, ∀ p ∈ k, Clean p) (hc' : ∀ k ∈ ks', ∀ p ∈ k, Clean p)
+    (h : keysText ks = keysText ks') : ks = ks' := by
+  rw [← C03_keys_text_round_trip ks hne hk hc, ← C03_keys_text_round_trip ks' hne' hk' hc', h]
+
+/-- the proviso is needed (open finding C03-lock-key-separators-not-escaped): a part that contains ',' or '_'
+    reads back as other keys -/
+theorem C03_FINDING_separator_in_value :
+    parseKeys (keysText [[['x', ',']]]) = [[['x']], [[]]] ∧
+    parseKeys (keysText [[['a', '_', 'b']]]) = [[['a'], ['b']]] ∧
+    keysText [[['a', '_', 'b']]] = keysText [[['a'], ['b']]] := by
+  decide
+
+/-! non-vacuity -/
+example : parseKeys (keysText [[['1', '3'], ['2', '9']], [['5'], ['2']]]) = [[['1', '3'], ['2', '9']], [['5'], ['2']]] := by
+  decide
+
+
+end KeyTextSection
 
 end Seata.Props.C03
